@@ -19,6 +19,9 @@ pub enum SrcK {
     RefFromPixels,
     CropOfRef,
     CropOfImg,
+    /// a *mutable* dynamic crop (CroppedImageMut) in the source role: its read-only view is a
+    /// separate implementation from CroppedImage's
+    CropMutAsSrc,
     // typed containers
     TRef,
     TImgOwned,
@@ -44,7 +47,7 @@ pub enum DstK {
     TCropMutNested,
 }
 
-pub const DYN_SRC: [SrcK; 6] = [SrcK::ImgOwned, SrcK::ImgSlice, SrcK::RefNew, SrcK::RefFromPixels, SrcK::CropOfRef, SrcK::CropOfImg];
+pub const DYN_SRC: [SrcK; 7] = [SrcK::ImgOwned, SrcK::ImgSlice, SrcK::RefNew, SrcK::RefFromPixels, SrcK::CropOfRef, SrcK::CropOfImg, SrcK::CropMutAsSrc];
 pub const TYPED_SRC: [SrcK; 5] = [SrcK::TRef, SrcK::TImgOwned, SrcK::TCropFromRef, SrcK::TCropNew, SrcK::TCropNested];
 pub const DYN_DST: [DstK; 5] = [DstK::ImgOwned, DstK::ImgVecSpare, DstK::ImgSlice, DstK::ImgSliceSpare, DstK::CropMutOfImg];
 pub const TYPED_DST: [DstK; 6] = [DstK::TSlice, DstK::TSliceSpare, DstK::TBufferSpare, DstK::TCropMutNew, DstK::TCropMutFromRef, DstK::TCropMutNested];
@@ -54,7 +57,7 @@ impl SrcK {
         DYN_SRC.contains(&self)
     }
     pub fn is_crop(self) -> bool {
-        matches!(self, SrcK::CropOfRef | SrcK::CropOfImg | SrcK::TCropFromRef | SrcK::TCropNew | SrcK::TCropNested)
+        matches!(self, SrcK::CropOfRef | SrcK::CropOfImg | SrcK::CropMutAsSrc | SrcK::TCropFromRef | SrcK::TCropNew | SrcK::TCropNested)
     }
 }
 impl DstK {
@@ -392,6 +395,11 @@ pub fn dyn_call(op: &mut OpSpec, sk: SrcK, src: Option<&PhysSrc>, dk: DstK, dst:
         SrcK::CropOfImg => {
             let parent = Image::from_vec_u8(pw, ph, s.buf.as_ref().to_vec(), pt).unwrap();
             let img = CroppedImage::new(&parent, pl.l, pl.t, w, h).unwrap();
+            dyn_with_dst(op, Some(&img), dk, dst)
+        }
+        SrcK::CropMutAsSrc => {
+            let mut parent = Image::from_vec_u8(pw, ph, s.buf.as_ref().to_vec(), pt).unwrap();
+            let img = CroppedImageMut::new(&mut parent, pl.l, pl.t, w, h).unwrap();
             dyn_with_dst(op, Some(&img), dk, dst)
         }
         _ => unreachable!("typed source in dynamic call"),
